@@ -104,6 +104,8 @@ def rewrite_item(text, relpath, base_line, rw, derive=None, keepattrs=False, wid
     def fix_derive(mm):
         items = [x.strip() for x in mm.group(1).split(',') if x.strip()]
         keep = [x for x in items if (x in (derive if derive is not None else KEEP_DERIVES))]
+        if derive is not None:
+            keep += [x for x in derive if x not in keep and x in ('Structural',)]   # Verus marker derive (ghost)
         new = ('#[derive(%s)]' % ', '.join(keep)) if keep else ''
         if new != mm.group(0):
             rw.add('filter-derive', relpath, base_line + text.count('\n', 0, mm.start()), mm.group(0), new)
